@@ -270,13 +270,26 @@ func (g *c18Gen) generate(thorough bool, n int) {
 		{"POST", "/v1/collections/rich/points", `{"points":[{"vector":[]}]}`}, {"POST", "/v1/collections/rich/points/search", `{"vector":[1],"limit":76}`}} {
 		g.add(spec("defect:v1-on-v2-collection:"+d[0]+" "+d[1], "valid", d[0], d[1], "alice", ctJ, []byte(d[2])))
 	}
+	// a product quantizer that cannot be built (refused at creation since the fix; the later requests
+	// then find no collection)
+	pqCreate := spec("defect:pq-unbuildable:create", "mutated", "POST", "/v2/collections", "alice", ctJ,
+		[]byte(`{"id":"pqbad","indexSchema":{"vec":{"type":"vectorFlat","vectorFlat":{"vectorSize":5,"distanceMetric":"euclidean","quantizer":{"type":"product","product":{"numCentroids":4,"numSubVectors":2,"triggerThreshold":1000}}}}}}`))
+	g.add(pqCreate)
+	g.add(spec("defect:pq-unbuildable:create-haversine", "mutated", "POST", "/v2/collections", "alice", ctM,
+		jObj("id", jStr("pqhav"), "indexSchema", jObj("vec", jObj("type", jStr("vectorVamana"), "vectorVamana", jObj("vectorSize", jInt(2), "distanceMetric", jStr("haversine"),
+			"searchSize", jInt(75), "degreeBound", jInt(64), "alpha", jF32(1.2), "quantizer", jObj("type", jStr("product"), "product", jObj("numCentroids", jInt(4), "numSubVectors", jInt(2), "triggerThreshold", jInt(1000))))))).Msgpack()))
+	g.add(spec("valid:pq-hamming-create", "valid", "POST", "/v2/collections", "alice", ctJ,
+		[]byte(`{"id":"pqham","indexSchema":{"vec":{"type":"vectorFlat","vectorFlat":{"vectorSize":5,"distanceMetric":"hamming","quantizer":{"type":"product","product":{"numCentroids":4,"numSubVectors":2,"triggerThreshold":1000}}}}}}`)))
+	pqSetup := pqCreate
+	pqSetup.Tag = "setup"
 	pqIns := spec("defect:pq-unbuildable:insert", "valid", "POST", "/v2/collections/pqbad/points", "alice", ctJ, []byte(`{"points":[{"vec":[1,2,3,4,5]}]}`))
+	pqIns.Setup = []xspec{pqSetup}
 	g.add(pqIns)
+	pqSetup2 := pqIns
+	pqSetup2.Tag, pqSetup2.Setup = "setup", nil
 	pqSearch := spec("defect:pq-unbuildable:search", "valid", "POST", "/v2/collections/pqbad/points/search", "alice", ctJ,
 		[]byte(`{"query":{"property":"vec","vectorFlat":{"vector":[1,2,3,4,5],"operator":"near","limit":3}},"limit":3}`))
-	pqSetup := pqIns
-	pqSetup.Tag = "setup"
-	pqSearch.Setup = []xspec{pqSetup} // the first insert creates the shard (and fails); the search then needs the index
+	pqSearch.Setup = []xspec{pqSetup, pqSetup2}
 	g.add(pqSearch)
 	for _, sel := range []string{`["size.b"]`, `["labels.x"]`, `["labels","labels.0"]`, `["extra.k.z"]`, `["cat","cat.x"]`, `["arr.1"]`, `["labels.0"]`, `["nested","nested.n"]`, `[""]`, `["nosuch.a","nosuch"]`, `["arr.*"]`} {
 		g.add(spec("defect:select-through-scalar:"+sel, "valid", "POST", "/v2/collections/rich/points/search", "alice", ctJ,
